@@ -218,6 +218,15 @@ class Hist:
             raise Quarantine()
         if valid is False:
             self.ev['out'] = 'accepted-invalid'
+            # the model expected a rejection; nothing about the *result* is promised, but C02 speaks about
+            # every call that returns normally: the object must still be well formed
+            for s in touched:
+                try:
+                    problems = observe.wf(s.real, with_copy=False)
+                except Exception as e:  # noqa
+                    problems = [('view-unreadable', f'{exc_name(e)}: {e}')]
+                for code, msg in problems[:2]:
+                    self.violate('C02', 'wf', f'{self.ev["k"]}:{code}:after-call-expected-to-be-rejected', msg)
             self.quarantine(touched, 'accepted-invalid')
             raise Quarantine()
         self.ev['out'] = 'ok'
@@ -242,7 +251,12 @@ class Hist:
                     self.violate('C02', 'wf', f'{self.ev["k"]}:{code}', msg)
                     if also:
                         self.violate(also, 'wf', f'{self.ev["k"]}:{code}', msg)
-                bad_slots.append(s)
+                if self.prop in ('C02', also) or any(c in ('operand-missing', 'cyclic', 'output-missing') for c, _ in problems):
+                    bad_slots.append(s)
+                else:
+                    # damage that is judged by another property's check: keep the damaged object alive so that
+                    # its consequences (a later composition, conversion, evaluation ...) can reach this check's oracles
+                    self.res.stats.probes.bump('damaged-object-kept-alive')
             s.net, s.users = net, users
         for s in self.pop:
             if s in touched:
@@ -994,6 +1008,33 @@ class Hist:
         equivalent = True
         for _ in range(rng.randint(0, 4)):
             self.rewrite(rng, sub, taken, keep={ren[g] for g in outs})
+        extra_leaf = None
+        if rng.random() < 0.25:
+            # the caller lists one more gate of the circuit as an input of the replacement; the replacement may read it
+            # without depending on it (x OR (z AND NOT z)): still functionally equivalent under the correspondence
+            cands = [g for g in net.gates if g not in gates and g not in leaves]
+            if cands:
+                z = rng.choice(cands)
+                zl = self.fresh_label(rng, net, taken) if rng.random() < 0.5 else z
+                if zl not in sub.gates:
+                    taken.add(zl)
+                    sub.gates = {**{zl: ('INPUT', ())}, **sub.gates}
+                    sub.inputs.append(zl)
+                    sub_in[z] = zl
+                    leaves = leaves + [z]
+                    extra_leaf = z
+                    if rng.random() < 0.6 and outs:
+                        o = ren[rng.choice(outs)]
+                        t0, ops0 = sub.gates[o]
+                        core, nz, az = self._lab(rng, taken), self._lab(rng, taken), self._lab(rng, taken)
+                        sub.gates[core] = (t0, ops0)
+                        sub.gates[nz] = ('NOT', (zl,))
+                        sub.gates[az] = ('AND', (zl, nz))
+                        sub.gates[o] = ('OR', (core, az))
+                        # keep `o` last so that build order stays operands-first
+                        v = sub.gates.pop(o)
+                        sub.gates[o] = v
+                    self.res.stats.probes.bump('replace_subcircuit-extra-leaf')
         if rng.random() < 0.12:
             # deliberately NOT equivalent: flip one gate type (rejected-call flavour: nothing is promised)
             cands = [g for g in sub.gates if sub.gates[g][0] in ('AND', 'OR', 'XOR')]
